@@ -63,6 +63,9 @@ CLAIMED = {
     "C19": ("exploration", "runtime monitor: independent per-field description (owned bits, admissible range, truncation rule, unit mapping) judges every set/build/parse round trip; text-form round trips; panic trap; Miri leg on the unsafe text code in thorough",
             "Exhaustive values for every field up to 16 bits (three scenarios: fresh, other fields pre-set, override), boundaries + random for wider ones, all 2^16 DevNonces, 10^5 values for each of 18 identifier/key types, variable-length creators, 300k command sequences through build_mac_commands.",
             "Field descriptions transcribed from LoRaWAN 1.0.4 / TS009 / TS005; set-valued where the statement allows refusal or truncation.", "6/C19"),
+    "C20": ("fault_enumeration", "crash-point enumeration with twin-run comparator: snapshot/restore (serde_json) after every step of every history, restored device run in lock-step with the original; structural mutation of documents with a panic-trapped operation battery",
+            "Histories of 4-12 transactions from chosen counters/ADR counters reaching empty/partial/full (15-byte) pending answers, owed ACK, fcnt_down None, 16-bit boundaries; after every step the document is round-tripped and installed in a second device (nb: fresh and in-place, async: new_with_session) that must emit byte-identical uplinks, identical downlink verdicts/payloads and identical documents for the rest of the history and a tail of replayed/stale/fresh downlinks; 12 classes of malformed documents.",
+            "Unpersisted MAC configuration is restored by the application (data rate) or left at defaults; histories avoid LinkADRReq.", "6/C20"),
 }
 
 NOT_YET = "monitor not built yet in this revision (planned in DESIGN.md section 6)"
